@@ -626,6 +626,16 @@ class ModelSpec:
         terms_set: set[Term] = set(terms)
         term_structure = {s.term: s for s in self.__structure if s.term in terms_set}
 
+        # The subset is made of this spec's own terms: a requested term only
+        # selects them (it may have been written by hand or re-parsed from its
+        # printed form, and its factors would then be evaluated differently).
+        own_terms = {term: term for term in self.terms}
+        ordering = formula.ordering
+        formula = SimpleFormula(
+            [own_terms[term] for term in terms], _ordering="none"
+        )
+        formula.ordering = ordering
+
         return self.update(
             formula=formula,
             structure=[term_structure[term] for term in terms],
